@@ -56,6 +56,18 @@ pub fn to_prims(r: &mut Rec) {
         g.u[2] = v.unwrap_or_default();
         Ret::none().some(some)
     });
+    r.op("to_biguint", "trait", &[i(0)], &[u(2)], "\"ty\":\"I\"", |g| {
+        let v = ToBigUint::to_biguint(&g.i[0]);
+        let some = v.is_some();
+        g.u[2] = v.unwrap_or_default();
+        Ret::none().some(some)
+    });
+    r.op("to_bigint", "trait", &[u(0)], &[i(2)], "\"ty\":\"U\"", |g| {
+        let v = ToBigInt::to_bigint(&g.u[0]);
+        let some = v.is_some();
+        g.i[2] = v.unwrap_or_default();
+        Ret::none().some(some)
+    });
     r.op("to_biguint", "try_from_ref", &[i(0)], &[u(2)], "\"ty\":\"I\"", |g| {
         let v = BigUint::try_from(&g.i[0]).ok();
         let some = v.is_some();
